@@ -38,6 +38,9 @@ impl Hosts {
 ///
 /// If the string cannot be parsed.
 fn parse_line(line: &str) -> Result<Option<(IpAddr, HashSet<DomainName>)>, Error> {
+    // a comment runs from the first '#' to the end of the line
+    let line = line.split('#').next().unwrap_or_default();
+
     let mut state = State::SkipToAddress;
     let mut address = IpAddr::V4(Ipv4Addr::LOCALHOST);
     let mut new_names = HashSet::new();
